@@ -309,6 +309,12 @@ def convention_violation(fmt, rows):
         # the second column is the rest of the line; more than one word in it is not '(key) (mode)'
         if k.lower() in KEYS and m in MODES:
             return False
+        if any(ch.isspace() for ch in k + m):
+            # blanks inside a column (possible with a non-blank delimiter, e.g. 'a ;minor'): whether
+            # '(key) (mode)' tolerates them is not documented -- judged only if it is wrong anyway
+            parts = (k + " " + m).split()
+            if len(parts) == 2 and parts[0].lower() in KEYS + ["x"] and parts[1].lower() in MODES:
+                return None
         if k.lower() in KEYS and m.lower() in MODES:
             return None  # letter case of the mode: the documentation shows lower case only
         return True
